@@ -294,3 +294,29 @@ func W7Triples(sink Sink) {
 		rec(nil, L)
 	}
 }
+
+// W7PositionsInDocs: the position-sweep strings as values and keys inside documents (the skip and
+// handler machines have their own string states; a chunked fast path there would be position
+// sensitive too).
+func W7PositionsInDocs(maxLen int, sink Sink) {
+	wrap := [][2]string{{"[", "]"}, {`[0,`, `,1]`}, {`{"k":`, "}"}, {`{"a":0,"k":`, `,"z":1}`}, {"{", ":1}"}, {`{"a":0,`, ":1}"}, {`[{"a":[`, "]}]"}}
+	c := &h.Case{Family: "W7pd"}
+	c.DescFn = func(c *h.Case) string { return fmt.Sprintf("position-sweep string #%d wrapped as %q..%q", c.P[0], wrap[c.P[1]][0], wrap[c.P[1]][1]) }
+	buf := make([]byte, 0, 256)
+	n := 0
+	W7Positions(maxLen, func(cs *h.Case) {
+		n++
+		if cs.P[3] >= 0 && n%2 == 0 { // every second two-special case is enough inside documents
+			return
+		}
+		for wi, w := range wrap {
+			buf = append(buf[:0], w[0]...)
+			buf = append(buf, cs.Input...)
+			buf = append(buf, w[1]...)
+			c.Input = buf
+			c.Desc = ""
+			c.P = [4]int{n, wi, 0, 0}
+			sink(c)
+		}
+	})
+}
